@@ -109,7 +109,7 @@ PRESERVING = [
 
 
 def run(ctx):
-    from ..rules import undeleg, sC23
+    from ..rules import undeleg, sC23, s4C23
     # the quick tier already runs the clang CFG version (about 1 s for the clang call); the thorough tier is the same analysis
     return [pC23.rule_S1(ctx), pC23.rule_S1b(ctx), pC23.rule_S1c(ctx), pC23.rule_YL(ctx), pC23.rule_RL(ctx), undeleg.rule_undelegate(ctx), sC23.rule_slots(ctx),
-            sC23.rule_deleg(ctx), sC23.rule_excstack(ctx), sC23.rule_term(ctx), sC23.rule_iternext(ctx), sC23.rule_agrun(ctx), sC23.rule_resume(ctx)]
+            sC23.rule_deleg(ctx), sC23.rule_excstack(ctx), sC23.rule_term(ctx), sC23.rule_iternext(ctx), sC23.rule_agrun(ctx), sC23.rule_resume(ctx), s4C23.rule_excscope(ctx)]
